@@ -1,1 +1,36 @@
 package pstoreds
+
+// End-to-end reproduction of the deleteInPlace defect through the public API: SetAddrs(p, [A, C], 0) on a peer with
+// addresses A, B, C must leave exactly B; it leaves C.
+
+import (
+	"context"
+	"testing"
+	"time"
+
+	ds "github.com/ipfs/go-datastore"
+	dssync "github.com/ipfs/go-datastore/sync"
+	"github.com/libp2p/go-libp2p/core/peer"
+	ma "github.com/multiformats/go-multiaddr"
+)
+
+func TestC09SetAddrsZeroTTLRepro(t *testing.T) {
+	opts := DefaultOpts()
+	opts.GCPurgeInterval = 0
+	ab, err := NewAddrBook(context.Background(), dssync.MutexWrap(ds.NewMapDatastore()), opts)
+	if err != nil {
+		t.Fatal(err)
+	}
+	defer ab.Close()
+	p := peer.ID("peer-1")
+	A := ma.StringCast("/ip4/1.1.1.1/tcp/1")
+	B := ma.StringCast("/ip4/2.2.2.2/tcp/2")
+	C := ma.StringCast("/ip4/3.3.3.3/tcp/3")
+	ab.AddAddrs(p, []ma.Multiaddr{A, B, C}, time.Hour)
+	ab.SetAddrs(p, []ma.Multiaddr{A, C}, 0)
+	got := ab.Addrs(p)
+	t.Logf("AddAddrs([A,B,C],1h); SetAddrs([A,C],0); Addrs = %v (expected [%s])", got, B)
+	if len(got) != 1 || !got[0].Equal(B) {
+		t.Fatalf("C09 VIOLATION CONFIRMED: SetAddrs with TTL 0 did not remove exactly the named addresses: %v", got)
+	}
+}
